@@ -32,6 +32,8 @@ pub struct Typist {
     pub model: Model<'static>,
     pub locale: &'static str,
     pub language: &'static str,
+    /// number format the cell carries before the text is typed (None = a fresh cell)
+    pub prefmt: Option<&'static str>,
     inputs: usize,
 }
 
@@ -41,19 +43,30 @@ impl Typist {
             model: Model::new_empty("c19", locale, "UTC", language).expect("model"),
             locale,
             language,
+            prefmt: None,
             inputs: 0,
         }
+    }
+    pub fn with_prefmt(mut self, f: Option<&'static str>) -> Typist {
+        self.prefmt = f;
+        self
     }
     /// Types `s` into a fresh cell A1 and observes the cell. Err = the engine panicked.
     pub fn type_in(&mut self, s: &str) -> Result<Typed, String> {
         self.inputs += 1;
         if self.inputs > 50_000 {
             // keep the shared-string and formula tables small
-            *self = Typist::new(self.locale, self.language);
+            *self = Typist::new(self.locale, self.language).with_prefmt(self.prefmt);
         }
+        let prefmt = self.prefmt;
         let model = &mut self.model;
         let r = crate::env::guarded(|| {
             model.workbook.worksheets[0].sheet_data.clear();
+            if let Some(f) = prefmt {
+                let mut st = ironcalc_base::types::Style::default();
+                st.num_fmt = f.to_string();
+                let _ = model.set_cell_style(0, 1, 1, &st);
+            }
             let _ = model.set_user_input(0, 1, 1, s.to_string());
             let kind = cell_kind(model, 0, 1, 1);
             let num_fmt = match kind {
@@ -63,7 +76,7 @@ impl Typist {
             Typed { kind, num_fmt }
         });
         if r.is_err() {
-            *self = Typist::new(self.locale, self.language);
+            *self = Typist::new(self.locale, self.language).with_prefmt(self.prefmt);
         }
         r
     }
@@ -162,11 +175,15 @@ pub fn judge(v: &Verdict, t: &Typed) -> Option<(String, String)> {
 
 pub fn check_one(rec: &Recogniser, ty: &mut Typist, s: &str) -> (Verdict, Option<Typed>, Option<Disagreement>) {
     let v = rec.classify(s);
-    let case = json!({"locale": rec.li.id, "input": s});
+    let case = json!({"locale": rec.li.id, "input": s, "prefmt": ty.prefmt});
+    let pre = match ty.prefmt {
+        Some(f) => format!(" cell-preformatted={}", f),
+        None => String::new(),
+    };
     match ty.type_in(s) {
         Ok(t) => {
             let d = judge(&v, &t).map(|(class, detail)| Disagreement {
-                sig: format!("{}:{} {} shape={}", v.name(), v.why(), class, sig_shape(s, &rec.li)),
+                sig: format!("{}:{} {} shape={}{}", v.name(), v.why(), class, sig_shape(s, &rec.li), pre),
                 case,
                 detail: format!("typing `{}` in locale {}: {} [oracle: {} ({})]", s, rec.li.id, detail, v.name(), v.why()),
             });
@@ -318,6 +335,39 @@ pub fn run(run: &mut Run) {
             Err(e) => run.machinery_errors.push(format!("unit panicked: {}", e)),
         }
     }
+    // second pass: the same judgement with the text typed into a cell that already carries a number format
+    // (a date, a percent, a currency format): the value and the format kind the input asks for must not depend on it
+    const PREFMTS: [&str; 3] = ["yyyy-mm-dd", "0%", "$#,##0.00"];
+    const PRE_LOCALES: [&str; 2] = ["en", "de"];
+    let plen: usize = if thorough { 5 } else { 4 };
+    let pre_units = PREFMTS.len() * PRE_LOCALES.len() * k;
+    let pres = crate::env::par_units(pre_units, |u| {
+        let f = PREFMTS[u / (PRE_LOCALES.len() * k)];
+        let loc = PRE_LOCALES[(u / k) % PRE_LOCALES.len()];
+        let a = u % k;
+        let rec = Recogniser::new(loc);
+        let mut ty = Typist::new(loc, "en").with_prefmt(Some(f));
+        let mut tally = Tally::default();
+        for len in 1..=plen {
+            for_each_with_prefix(&ALPHABET, &[a], len, &mut |s| {
+                let (v, t, d) = check_one(&rec, &mut ty, s);
+                tally.take(&v, &t, d);
+            });
+        }
+        tally
+    });
+    let mut pre_n = 0u64;
+    for r in pres {
+        match r {
+            Ok(t) => {
+                run.add_all(t.ds);
+                pre_n += t.n;
+                total.outcomes.extend(t.outcomes);
+            }
+            Err(e) => run.machinery_errors.push(format!("unit panicked: {}", e)),
+        }
+    }
+    run.extra.insert("inputs_into_preformatted_cells".into(), json!({"formats": PREFMTS, "locales": PRE_LOCALES, "max_length": plen, "inputs": pre_n}));
     let expected: u64 = LOCALES.iter().map(|l| crate::fnum::count_strings(k, len_of(l)) + dates.len() as u64).sum();
     if total.n != expected {
         run.machinery_errors.push(format!("enumerated {} inputs, expected {}", total.n, expected));
@@ -367,6 +417,7 @@ pub fn replay(case: &Value) -> Vec<Disagreement> {
     let loc: &'static str = LOCALES.iter().find(|l| **l == loc).copied().unwrap_or("en");
     let s = case["input"].as_str().unwrap_or("");
     let rec = Recogniser::new(loc);
-    let mut ty = Typist::new(loc, "en");
+    let pre: Option<&'static str> = case["prefmt"].as_str().map(|f| &*Box::leak(f.to_string().into_boxed_str()));
+    let mut ty = Typist::new(loc, "en").with_prefmt(pre);
     check_one(&rec, &mut ty, s).2.into_iter().collect()
 }
